@@ -374,6 +374,11 @@ def region97_ref(t, p, psat, pb23):
     Exactly on a curve either side is accepted."""
     if not (T_MIN <= t <= T_MAX and 0. <= p <= P_MAX):
         return set([None])
+    if p == 0.:
+        # the vacuum edge: no region's equation is valid there (region 2 needs p > 0), so "out of bounds" is
+        # right; the library documents 0 as the lower bound, so region 2 is accepted as well - then the
+        # caller's "routine accepts the state" clause decides
+        return set([None, 2])
     if t <= T_13:
         if p > psat:
             return set([1])
@@ -405,25 +410,38 @@ def cowat67_range(t, p, psat):
     return set([True, False])
 
 
-def supst67_range(t, p, psat, pb23):
-    """IFC-67 region 2: 0.01..800 degC; 0 < p <= saturation pressure up to 350 degC, <= the L-function
-    boundary from 350 to 590 degC, <= 100 MPa above.  Where the L-function boundary itself exceeds
-    100 MPa by rounding of its printed coefficients (t within 1e-6 degC of 590) either answer is accepted
-    between 100 MPa and the curve."""
-    if not (T_MIN <= t <= T_MAX) or p <= 0.:
-        return set([False])
-    if t > T_23_END:
-        return set([p <= P_MAX])            # a stated, closed limit - not a curve
-    curve = psat if t <= T_13 else pb23
-    if p > P_MAX:
-        if p <= curve:
-            return set([True, False])
-        return set([False])
+def _side(p, curve):
     if p < curve:
         return set([True])
     if p > curve:
         return set([False])
     return set([True, False])
+
+
+def supst67_range(t, p, psat, pb23):
+    """Operating range of t2thermo.supst (ruling of the framework owner: the range is what TOUGH2 uses SUPST
+    for - the vapour phase up to saturation for every temperature up to the IFC-67 critical temperature; the
+    documentation's "region 2" is loose wording): 0.01..800 degC, p > 0,
+        p <= sat(t)   for t <= 374.15 degC,
+        p <= b23p(t)  for 374.15 < t <= 590 degC,
+        p <= 100 MPa  above.
+    Exactly on a curve either answer is accepted; 100 MPa above 590 degC is a stated closed limit.  Where
+    b23p(t) exceeds 100 MPa by rounding of its printed coefficients (t within 1e-6 degC of 590) either answer
+    is accepted between 100 MPa and the curve.  Between the printed 374.15 and the computed 647.3 - 273.15
+    (should they differ in the last bit) either curve may be the one in force."""
+    if not (T_MIN <= t <= T_MAX) or p <= 0.:
+        return set([False])
+    if t > T_23_END:
+        return set([p <= P_MAX])            # a stated, closed limit - not a curve
+    if t < TCRIT67_LO or (t <= TCRIT67_HI and TCRIT67_LO == TCRIT67_HI):
+        return _side(p, psat) if p <= P_MAX else set([False])
+    if t <= TCRIT67_HI:
+        return (_side(p, psat) | _side(p, pb23)) if p <= P_MAX else set([False])
+    if p > P_MAX:
+        if p <= pb23:
+            return set([True, False])
+        return set([False])
+    return _side(p, pb23)
 
 
 def sat67_range(t):
@@ -447,12 +465,16 @@ def tsat67_range(p, psat_min):
 # Calibrated tolerances
 # ----------------------------------------------------------------------------------------------------------
 # name -> (measured worst value on the pinned tree, multiplier, unit, where the worst was met / what it is)
-# tolerance enforced = measured * multiplier.  Measured with /repo @ 895e1ca (IAPWS97.py and t2thermo.py
-# unchanged since the pinned snapshot 7b95aa4) on the THOROUGH lattices, by tools-free re-run of the checks
-# with VERIF_CALIBRATE=1 (prints the worst value of every quantity instead of enforcing it).
+# tolerance enforced = measured * multiplier.  These are the noise-limited quantities (inverse pairs: rounding;
+# identities: rounding of u and stencil truncation), hence the generous multipliers of DESIGN.md (100 / 10).
+# Measured on /repo (IAPWS97.py unchanged since the pinned snapshot 7b95aa4; t2thermo.py changed only in tsat,
+# commit 335de5e) as the larger of the quick and the thorough tier, by running the checks with VERIF_CALIBRATE=1
+# (nothing calibrated is enforced; the worst value of every quantity is printed, see print_calibration).
 TOL = {
     # --- C14 (2): inverse pairs (multiplier 100, DESIGN C14(2)) -------------------------------------------
     'satinv_t': (4.172306944383308e-11, 100., 'degC', '|tsat(sat(t)) - t|, worst at t = 373.73 over all 37 396 points'),
+    # (since the F9 repair e61f150 clamps sat() to pcritical, tsat(sat(tcritical)) = tsat(pcritical) = tcritical - 1.19e-9:
+    #  the end point is now the worst point of the run, 3.5 x inside the tolerance; deliberately not re-calibrated)
     'satinv_p': (3.6461850883467906e-13, 100., 'relative', '|sat(tsat(p)) - p| / p, worst at p = 21.83 MPa (4 000-point log lattice)'),
     'b23inv_t': (1.6353851606254466e-10, 100., 'degC', '|b23t(b23p(t)) - t|, worst at t = 350 + 1 ulp over all 24 005 points'),
     'b23inv_p': (1.021407699421442e-12, 100., 'relative', '|b23p(b23t(p)) - p| / p, worst at p = b23p(350)'),
@@ -482,13 +504,17 @@ def tol(name):
 # Each band records the smallest and the largest signed value met on the pinned tree (union of the quick and
 # the thorough lattice); the interval enforced is
 #       [ min - m,  max + m ],   m = BAND_KW * (max - min) + BAND_KM * max(|min|, |max|)
-# i.e. the measured range widened on each side by half its own width plus 2 % of its magnitude ("multiplier":
-# the enforced interval is 2 x the measured width, + 4 % of the magnitude).  Keeping the sign and the
-# sub-ranges (temperature / pressure bands) is what makes a changed coefficient visible: it shifts the whole
-# profile one way, which a single worst-magnitude figure with a x3 or x10 margin hides completely.
+# i.e. the measured range widened on each side by a tenth of its own width plus 1 % of its magnitude (in the
+# terms of DESIGN.md: "multiplier" 1.2 on the width of the measured range).  The margin is not needed for the
+# unchanged tree at all (the same lattice points give the same numbers); it only sets how large a change of a
+# coefficient is tolerated.  Keeping the sign and the sub-ranges (temperature / pressure bands) is what makes a
+# changed coefficient visible: it shifts the whole profile one way, which a single worst-magnitude figure with
+# a x3 or x10 margin hides completely (measured: with "worst x 10" no change of any single digit beyond the
+# 2nd of any IAPWS-97 coefficient was detected; with the bands the 6th significant digit of the leading
+# coefficients is).  The bands must be re-measured whenever a lattice of checks/c14.py or c15.py changes.
 # name -> (min, max, where)           units in the group comments
-BAND_KW = 0.5
-BAND_KM = 0.02
+BAND_KW = 0.1
+BAND_KM = 0.01
 BAND = {
     # --- C14 (5): agreement across region boundaries -----------------------------------------------------------
     # x13_density / x13_energy: 350 degC, (region 3 - region 1) relative density / energy in J/kg at the same p
@@ -532,11 +558,11 @@ BAND = {
     # cmp_cowat_density / cmp_supst_density: (d67 - d97) / d97;  cmp_cowat_energy / cmp_supst_energy: u67 - u97 in J/kg
     # cmp_sat: (sat67 - sat97) / sat97, 10 degC bands.  Steam bands are split at p = 0.1 * (upper pressure limit
     # of the isotherm).  DESIGN.md planned "worst x 3"; the signed bands are tighter and were preferred.
-    'cmp_cowat_density@T0-50': (-7.6525e-05, 0.000414344, 'min at t=0.01 p=19094032.098844606; max at t=8.0 p=100000000.0'),
+    'cmp_cowat_density@T0-50': (-7.63421e-05, 0.000414344, 'min at t=0.01 p=16022177.980704544; max at t=8.0 p=100000000.0'),
     'cmp_cowat_density@T50-100': (-0.000242075, 0.000308543, 'min at t=100.0 p=101417.97792131016; max at t=100.0 p=100000000.0'),
     'cmp_cowat_density@T100-150': (-0.000291216, 0.000505888, 'min at t=127.0 p=246877.62936203848; max at t=150.0 p=100000000.0'),
     'cmp_cowat_density@T150-200': (-0.000252501, 0.000514042, 'min at t=151.0 p=489000.0412720645; max at t=161.0 p=100000000.0'),
-    'cmp_cowat_density@T200-250': (-3.57228e-05, 0.000517954, 'min at t=250.0 p=100000000.0; max at t=250.0 p=26334979.067102358'),
+    'cmp_cowat_density@T200-250': (-3.57228e-05, 0.000517897, 'min at t=250.0 p=100000000.0; max at t=250.0 p=26637023.0843874'),
     'cmp_cowat_density@T250-300': (-0.00058822, 0.000566808, 'min at t=300.0 p=100000000.0; max at t=274.0 p=26015310.074367'),
     'cmp_cowat_density@T300-350': (-0.0022989, 0.000466549, 'min at t=350.0 p=100000000.0; max at t=301.0 p=34118140.1373148'),
     'cmp_cowat_energy@T0-50': (-214.199, 531.047, 'min at t=22.0 p=100000000.0; max at t=0.01 p=100000000.0'),
@@ -545,7 +571,7 @@ BAND = {
     'cmp_cowat_energy@T150-200': (-102.245, 112.561, 'min at t=153.0 p=515636.74027719203; max at t=200.0 p=61017662.979553476'),
     'cmp_cowat_energy@T200-250': (-19.4056, 198.033, 'min at t=201.0 p=1587677.8995247686; max at t=247.0 p=48591808.08232278'),
     'cmp_cowat_energy@T250-300': (-340.743, 289.857, 'min at t=300.0 p=100000000.0; max at t=300.0 p=8592691.99792975'),
-    'cmp_cowat_energy@T300-350': (-3625.06, 1255.65, 'min at t=350.0 p=100000000.0; max at t=350.0 p=25530994.170650814'),
+    'cmp_cowat_energy@T300-350': (-3625.06, 1255.55, 'min at t=350.0 p=100000000.0; max at t=350.0 p=25343704.41732143'),
     'cmp_sat@T0-10': (-0.000974591, -0.000674561, 'min at t=10.0; max at t=0.01'),
     'cmp_sat@T10-20': (-0.00113423, -0.000976724, 'min at t=20.0; max at t=10.1'),
     'cmp_sat@T20-30': (-0.0012241, -0.0011354, 'min at t=30.0; max at t=20.1'),
@@ -585,36 +611,36 @@ BAND = {
     'cmp_sat@T360-370': (0.000465568, 0.000536077, 'min at t=360.1; max at t=367.3'),
     'cmp_sat@T370-380': (0.000107764, 0.000504104, 'min at t=373.946; max at t=370.1'),
     'cmp_supst_density@T0-100,p-high': (-0.000212297, 0.000256753, 'min at t=34.0 p=5318.037866714129; max at t=100.0 p=90110.07825910734'),
-    'cmp_supst_density@T0-100,p-low': (1.69076e-05, 7.52567e-05, 'min at t=29.0 p=395.86005384893093; max at t=100.0 p=9701.30966334117'),
+    'cmp_supst_density@T0-100,p-low': (1.67327e-05, 7.68007e-05, 'min at t=30.0 p=422.63808752486096; max at t=100.0 p=10088.156792118454'),
     'cmp_supst_density@T100-200,p-high': (8.11991e-05, 0.000548068, 'min at t=101.0 p=11175.166709428579; max at t=200.0 p=1320061.0464184817'),
     'cmp_supst_density@T100-200,p-low': (3.47192e-05, 0.000133326, 'min at t=200.0 p=100.0; max at t=151.0 p=48837.36919785371'),
-    'cmp_supst_density@T200-300,p-high': (-0.000302381, 0.00128345, 'min at t=300.0 p=8587708.329557277; max at t=281.0 p=5398145.3605282195'),
-    'cmp_supst_density@T200-300,p-low': (2.50728e-07, 8.90335e-05, 'min at t=285.0 p=689339.0799034216; max at t=203.0 p=165065.36632323277'),
+    'cmp_supst_density@T200-300,p-high': (-0.000302381, 0.00132432, 'min at t=300.0 p=8587708.329557277; max at t=292.0 p=5741699.333189896'),
+    'cmp_supst_density@T200-300,p-low': (9.33199e-07, 8.90335e-05, 'min at t=267.0 p=478709.55608315754; max at t=203.0 p=165065.36632323277'),
     'cmp_supst_density@T300-400,p-high': (-0.00172641, 0.00135789, 'min at t=400.0 p=24235600.162638094; max at t=352.0 p=13652313.04009439'),
     'cmp_supst_density@T300-400,p-low': (2.66907e-05, 0.000602558, 'min at t=301.0 p=861474.9331493444; max at t=400.0 p=2401997.5821262286'),
     'cmp_supst_density@T400-500,p-high': (-0.00253033, 0.0046694, 'min at t=415.0 p=27541345.514477372; max at t=478.0 p=46432336.089591675'),
-    'cmp_supst_density@T400-500,p-low': (3.4709e-05, 0.00125873, 'min at t=401.0 p=100.0; max at t=500.0 p=4674253.021920773'),
+    'cmp_supst_density@T400-500,p-low': (3.4709e-05, 0.00131903, 'min at t=401.0 p=100.0; max at t=500.0 p=5124178.945941793'),
     'cmp_supst_density@T500-600,p-high': (-0.00137491, 0.00287781, 'min at t=545.0 p=75403099.17763248; max at t=501.0 p=55345659.77706302'),
     'cmp_supst_density@T500-600,p-low': (3.46991e-05, 0.00154913, 'min at t=600.0 p=100.0; max at t=563.0 p=8382134.093314706'),
-    'cmp_supst_density@T600-700,p-high': (-0.000980392, 0.00365006, 'min at t=647.0 p=62605165.72014824; max at t=675.0 p=100000000.0'),
+    'cmp_supst_density@T600-700,p-high': (-0.000982378, 0.00365006, 'min at t=672.0 p=70170382.86703855; max at t=675.0 p=100000000.0'),
     'cmp_supst_density@T600-700,p-low': (3.46886e-05, 0.0014854, 'min at t=700.0 p=100.0; max at t=601.0 p=9617248.71115296'),
     'cmp_supst_density@T700-800,p-high': (-0.00127893, 0.00293483, 'min at t=800.0 p=100000000.0; max at t=701.0 p=100000000.0'),
     'cmp_supst_density@T700-800,p-low': (3.46828e-05, 0.00108315, 'min at t=800.0 p=100.0; max at t=701.0 p=9617248.71115296'),
     'cmp_supst_energy@T0-100,p-high': (107.614, 838.663, 'min at t=100.0 p=10908.743639938017; max at t=58.0 p=18147.326521634932'),
     'cmp_supst_energy@T0-100,p-low': (95.2456, 337.342, 'min at t=96.0 p=100.0; max at t=7.0 p=100.0'),
-    'cmp_supst_energy@T100-200,p-high': (-1524.16, 449.015, 'min at t=200.0 p=1320061.0464184817; max at t=101.0 p=104996.4621098299'),
-    'cmp_supst_energy@T100-200,p-low': (-190.755, 103.62, 'min at t=195.0 p=139638.28805283195; max at t=101.0 p=9932.250408996946'),
+    'cmp_supst_energy@T100-200,p-high': (-1542.47, 449.015, 'min at t=200.0 p=1213838.2639448969; max at t=101.0 p=104996.4621098299'),
+    'cmp_supst_energy@T100-200,p-low': (-160.932, 103.62, 'min at t=192.0 p=117693.14330865347; max at t=101.0 p=9932.250408996946'),
     'cmp_supst_energy@T200-300,p-high': (-1682.21, 1717.22, 'min at t=227.0 p=2226753.544826056; max at t=300.0 p=8587708.329557277'),
     'cmp_supst_energy@T200-300,p-low': (-195.266, 367.293, 'min at t=203.0 p=165065.36632323277; max at t=300.0 p=851876.8588959158'),
-    'cmp_supst_energy@T300-400,p-high': (-139.467, 4777.51, 'min at t=301.0 p=5922816.999289184; max at t=352.0 p=16739569.176644806'),
+    'cmp_supst_energy@T300-400,p-high': (-173.34, 4777.51, 'min at t=302.0 p=6595555.387523842; max at t=352.0 p=16739569.176644806'),
     'cmp_supst_energy@T300-400,p-low': (-343.991, 860.746, 'min at t=400.0 p=100.0; max at t=395.0 p=2321051.336164277'),
     'cmp_supst_energy@T400-500,p-high': (-938.028, 6899.57, 'min at t=500.0 p=54935692.14627605; max at t=431.0 p=31572729.364345923'),
-    'cmp_supst_energy@T400-500,p-low': (-575.172, 831.959, 'min at t=500.0 p=1218984.5194076719; max at t=401.0 p=2418603.765271405'),
+    'cmp_supst_energy@T400-500,p-low': (-575.332, 831.959, 'min at t=500.0 p=1321056.0725779943; max at t=401.0 p=2418603.765271405'),
     'cmp_supst_energy@T500-600,p-high': (-7504.73, 430.809, 'min at t=596.0 p=79123426.18981345; max at t=501.0 p=35351086.81837927'),
-    'cmp_supst_energy@T500-600,p-low': (-2533.98, -416.037, 'min at t=600.0 p=9617248.71115296; max at t=501.0 p=4702612.293194803'),
-    'cmp_supst_energy@T600-700,p-high': (-7469.63, -2787.85, 'min at t=601.0 p=79123426.18981345; max at t=601.0 p=12154742.50076289'),
+    'cmp_supst_energy@T500-600,p-low': (-2533.98, -397.465, 'min at t=600.0 p=9617248.71115296; max at t=502.0 p=5187004.056702225'),
+    'cmp_supst_energy@T600-700,p-high': (-7469.63, -2786.68, 'min at t=601.0 p=79123426.18981345; max at t=602.0 p=11937766.41714436'),
     'cmp_supst_energy@T600-700,p-low': (-3036.62, -727.147, 'min at t=674.0 p=9617248.71115296; max at t=601.0 p=100.0'),
-    'cmp_supst_energy@T700-800,p-high': (-5401.29, -767.597, 'min at t=713.0 p=100000000.0; max at t=800.0 p=62101694.18915613'),
+    'cmp_supst_energy@T700-800,p-high': (-5401.29, -771.098, 'min at t=713.0 p=100000000.0; max at t=800.0 p=62605165.72014824'),
     'cmp_supst_energy@T700-800,p-low': (-2984.95, -1094.68, 'min at t=701.0 p=9617248.71115296; max at t=701.0 p=100.0'),
 }
 
@@ -680,6 +706,16 @@ def collect(notes):
         else:
             rest.append(n)
     return u, sg, rest
+
+
+def print_calibration(u, sg):
+    """VERIF_CALIBRATE=1 ./vcheck C14|C15 quick|thorough: nothing calibrated is enforced; the worst values of the
+    run are printed.  TOL entries take the larger of the two tiers; BAND entries the smaller min and the larger
+    max of the two tiers (the lattices of the tiers are not nested).  Re-run after any change of a lattice."""
+    for k in sorted(u):
+        print('CALIBRATE-U %s %r at %s' % (k, u[k][0], u[k][1]))
+    for k in sorted(sg):
+        print('CALIBRATE-S %s %r %r at %s / %s' % (k, sg[k][0], sg[k][2], sg[k][1], sg[k][3]))
 
 
 def evidence_of(u, sg):
